@@ -11,8 +11,12 @@ inductive LStep (F : Flags) (o : Obs) (x : Act) : Ev → Act → Eff → Prop
       LStep F o x .acquire { x with phase := .acquired, holds := true } .acq
   | register (k : Nat) (hp : x.phase = .acquired) (hr : x.def_.run ≠ .always) (hk : o.registered k = false) :
       LStep F o x (.register k) { x with phase := .exec, key := some k } (.reg k)
-  | waiter (k : Nat) (hp : x.phase = .acquired) (hr : x.def_.run ≠ .always) (hk : o.registered k = true) :
-      LStep F o x (.waiter k) { x with phase := .wWaiting, waitsFor := some k } .none
+  | waiter (k : Nat) (hp : x.phase = .acquired) (hr : x.def_.run ≠ .always) (hk : o.registered k = true)
+      (hcyc : o.cyc k = false) :
+      LStep F o x (.waiter k) { x with phase := .wWaiting, waitsFor := some k } (.wait k)
+  | waitCycle (k : Nat) (hp : x.phase = .acquired) (hr : x.def_.run ≠ .always) (hk : o.registered k = true)
+      (hcyc : o.cyc k = true) :
+      LStep F o x (.waitCycle k) (x.stop (.typed 204)) .none
   | wRelease (hp : x.phase = .wWaiting) : LStep F o x .wRelease { x with phase := .wReleased, holds := false } .rel
   | wWake (r : Outcome) (hp : x.phase = .wReleased) (he : o.execResult () = some r) :
       LStep F o x .wWake { x with phase := .wWoken, res := wrapFor x.indirect r, out := r } .none
@@ -93,6 +97,7 @@ theorem LStep_of_stepLocal (F : Flags) (o : Obs) (x : Act) (ev : Ev) (y : Act) (
     | (apply LStep.acquire <;> simp_all <;> done)
     | (apply LStep.register <;> simp_all <;> done)
     | (apply LStep.waiter <;> simp_all <;> done)
+    | (apply LStep.waitCycle <;> simp_all <;> done)
     | (apply LStep.wRelease <;> simp_all <;> done)
     | (apply LStep.wWake <;> simp_all <;> done)
     | (apply LStep.wReacq <;> simp_all <;> done)
